@@ -23,3 +23,95 @@ def render_view(f):
     f2 = copy.copy(f)
     f2.node = pyfront.inline_procedures(f.node, {}, methods=inl)
     return f2
+
+
+def rule_handed_on(ctx, px, R):
+    """the generator applies the processors it was given: CodeGenerator._handle_post_processors adds what the language asks for to the
+    caller's list and selects nothing out of it"""
+    # the generator hands on every post-processor it was given, in order: the defaults a language asks for are added to the caller's
+    # list, nothing is selected out of it (the command line's list ends with SetFileMode(<requested mode>) - a selection "by type"
+    # keeps an earlier, different SetFileMode and drops that one)
+    hp = px.func("nunavut.jinja", "CodeGenerator._handle_post_processors")
+
+    def callee_of(fn, c):
+        if isinstance(c.func, ast.Attribute) and isinstance(c.func.value, ast.Name) and c.func.value.id in ("self", "cls") and fn.cls is not None:
+            nm = c.func.attr
+            for k, m_ in fn.cls.methods.items():
+                if k == nm or (nm.startswith("__") and k.endswith(nm)) or k == nm.lstrip("_") or nm.endswith(k):
+                    return m_
+        if isinstance(c.func, ast.Name) and c.func.id in fn.module.funcs:
+            return fn.module.funcs[c.func.id]
+        return None
+
+    def none_given(fn, expr, param):
+        """the expression is evaluated only where no list was given at all (`param is None`)"""
+        gd = pyfront.guard_terms(pyfront.guards_of(fn.node, expr) or ())
+        return any((t == f"{param} is None" and p_) or (t == f"{param} is not None" and not p_) or (t == param and not p_) for t, p_ in gd)
+
+    def preserves(fn, e, param, depth=0, seen=()):
+        """does the expression denote a list that holds every element of `param`, in order? -> (ok, why)"""
+        if depth > 5:
+            return False, "too deep"
+        if isinstance(e, ast.Name):
+            if e.id == param:
+                # every (re)binding of the name keeps the elements
+                for n in ast.walk(fn.node):
+                    if isinstance(n, ast.Assign) and len(n.targets) == 1 and isinstance(n.targets[0], ast.Name) and n.targets[0].id == param and id(n) not in seen:
+                        gd = pyfront.guard_terms(pyfront.guards_of(fn.node, n) or ())
+                        fresh_when_none = isinstance(n.value, (ast.List, ast.ListComp)) and any((t == f"{param} is None" and p_) or (t == f"{param} is not None" and not p_) or (t == param and not p_) for t, p_ in gd)
+                        if fresh_when_none:
+                            continue
+                        ok_, why_ = preserves(fn, n.value, param, depth + 1, seen + (id(n),))
+                        if not ok_:
+                            return False, why_
+                return True, ""
+            v = pyfront.subst_locals(fn.node, e)
+            if isinstance(v, ast.Name):
+                return False, f"`{e.id}` does not come from `{param}`"
+            return preserves(fn, v, param, depth + 1, seen)
+        if isinstance(e, ast.BinOp) and isinstance(e.op, ast.Add):
+            a_, b_ = preserves(fn, e.left, param, depth + 1, seen), preserves(fn, e.right, param, depth + 1, seen)
+            return (True, "") if a_[0] or b_[0] else a_
+        if isinstance(e, ast.BoolOp) and isinstance(e.op, ast.Or):
+            return preserves(fn, e.values[0], param, depth + 1, seen)
+        if isinstance(e, ast.IfExp):
+            a_, b_ = preserves(fn, e.body, param, depth + 1, seen), preserves(fn, e.orelse, param, depth + 1, seen)
+            none_test = ast.unparse(e.test).replace(" ", "") in (f"{param}isNone", f"not{param}", f"{param}isnotNone", param)
+            return (True, "") if (a_[0] and b_[0]) or (none_test and (a_[0] or b_[0])) else (a_ if not a_[0] else b_)
+        if isinstance(e, ast.Call) and isinstance(e.func, ast.Name) and e.func.id in ("list", "tuple") and len(e.args) == 1:
+            return preserves(fn, e.args[0], param, depth + 1, seen)
+        if isinstance(e, ast.Call):
+            h = callee_of(fn, e)
+            if h is not None:
+                hps = [a.arg for a in h.node.args.args]
+                if hps and hps[0] in ("self", "cls") and not any(d == "staticmethod" for d in h.decorators):
+                    hps = hps[1:]
+                for i_, a_ in enumerate(e.args):
+                    if i_ < len(hps) and preserves(fn, a_, param, depth + 1, seen)[0]:
+                        rets_ = [r.value for r in ast.walk(h.node) if isinstance(r, ast.Return) and r.value is not None]
+                        if not rets_:
+                            return False, f"{h.short} returns nothing"
+                        for rv in rets_:
+                            if none_given(h, rv, hps[i_]):
+                                continue
+                            ok_, why_ = preserves(h, rv, hps[i_], depth + 1, ())
+                            if not ok_:
+                                return False, f"{h.short} returns `{ast.unparse(rv)[:60]}`" + (f" ({why_})" if why_ else "")
+                        return True, ""
+            return False, f"`{ast.unparse(e)[:70]}` is not the given list, a copy of it, or that list with more appended"
+        if isinstance(e, ast.Constant) and e.value is None:
+            return True, ""       # no list at all where none was given and nothing is added
+        return False, f"`{ast.unparse(e)[:70]}` is not the given list, a copy of it, or that list with more appended"
+
+    hparam = [a.arg for a in hp.node.args.args][-1]
+    k_ret = 0
+    for r in [r for r in ast.walk(hp.node) if isinstance(r, ast.Return) and r.value is not None]:
+        k_ret += 1
+        if none_given(hp, r.value, hparam):
+            continue
+        ok, why = preserves(hp, r.value, hparam)
+        ctx.ob(R, hp.module.rel, f"{hp.short} :: hands on every post-processor it was given, in order (`return {ast.unparse(r.value)[:50]}`)", ok,
+               "" if ok else why + ": a processor the caller listed can be dropped, so the file is not what applying each listed processor in order gives "
+               "(of two processors of one type only one runs; the command line's closing SetFileMode(<requested mode>) can be the one that goes)", r.lineno)
+    ctx.floor(R + ":handed-on", k_ret, 1)
+
